@@ -436,6 +436,16 @@ def gen_kwargs(rng):
             chip_types=('int',), strict_p=1.0, min_n=9, max_n=9,
             auto_styles=('any', 'none', 'typical', 'all'),
             hostile_chips=False)
+    if k < 0.12:
+        # streets that mix kinds of dealing (draw + board, hole + board,
+        # stud + board) with short stacks: the betting between two such
+        # streets is often skipped and the engine chains the dealing itself
+        return dict(
+            customs=('drawboard', 'drawboard', 'boarddraw', 'holeboard',
+                     'studboard', 'studdraw', 'random'), p_custom=1.0,
+            chip_types=('int',), max_boards=2, strict_p=1.0,
+            auto_styles=('any', 'all', 'single-off', 'typical'),
+            hostile_chips=True)
     if k < 0.2:
         games, min_n = gen.STUD_GAMES, 7
     elif k < 0.4:
